@@ -1,18 +1,24 @@
 use crate::common::Tier;
-pub mod c08;
-pub mod c09;
-pub mod c20;
 
-pub fn run(id: &str, tier: Tier) -> i32 {
-    match id {
-        "C08" => c08::run(tier),
-        "C09" => c09::run(tier),
-        "C20" => c20::run(tier),
-        _ => {
-            crate::elog!("unknown property {}", id);
-            2
+macro_rules! props {
+    ($($id:literal => $m:ident),* $(,)?) => {
+        $(pub mod $m;)*
+        pub fn run(id: &str, tier: Tier) -> i32 {
+            match id {
+                $($id => $m::run(tier),)*
+                _ => { crate::elog!("unknown property {}", id); 2 }
+            }
         }
-    }
+    };
+}
+props! {
+    "C05" => c05,
+    "C06" => c06,
+    "C08" => c08,
+    "C09" => c09,
+    "C13" => c13,
+    "C14" => c14,
+    "C20" => c20,
 }
 
 pub fn replay(path: &str) -> i32 {
